@@ -105,6 +105,7 @@ def wsgi_str(text: str) -> str:
 FLAVOURS = ('wsgiref', 'gunicorn', 'uwsgi', 'mod_wsgi', 'http10')
 AUTO = ('wsgiref', 'gunicorn', 'uwsgi', 'mod_wsgi')
 _auto = [True]
+_auto_proto = [True]
 flavour_counts = {}
 
 
@@ -177,6 +178,12 @@ def make_environ(method='GET', path='/', qs='', headers=None, body=None, stream=
         h = len(env['PATH_INFO']) + len(qs) + len(method) + len(headers or ()) + (len(body) if body else 0)
         h += len(getattr(stream, 'data', b'')) + len(env.get('CONTENT_LENGTH', '')) * 3 + len(content_type or '') + sum(len(str(v)) for v in (headers or {}).values())
         flavour = AUTO[h % len(AUTO)]
+        # ... and the protocol version the server reports: what a request means does not depend on it
+        # (the framework only picks 302 instead of 303 for redirect() when it is not HTTP/1.1)
+        proto = ('HTTP/1.1', 'HTTP/1.1', 'HTTP/1.0', 'HTTP/1.1', 'HTTP/2.0', 'HTTP/1.1', 'HTTP/1.1')[(h // len(AUTO)) % 7]
+        if proto != 'HTTP/1.1' and _auto_proto[0]:
+            env['SERVER_PROTOCOL'] = proto
+            flavour_counts['protocol_' + proto] = flavour_counts.get('protocol_' + proto, 0) + 1
     if flavour:
         apply_flavour(env, flavour)
     if extra:
